@@ -44,7 +44,11 @@ UnfragCases(z) == {Case("unfragment", 0, 0, l) : l \in Lists(gG, gN, gNT)}
 FragUnfragCases(z) == {Case("fragment+unfragment", f, 0, l) : f \in 1..((gG + 1) \div 2),
                       l \in {x \in SortedLists(gG, gN, gNT) : NoSameTextTouch(x)}}
 OrderCases(z)    == {Case("order", 0, 0, l) : l \in Lists(gG, gN, gNT)}
+\* a genuine cue may look like the filler (one unit long, the placeholder text): it is a cue like any other
+LooksLikeFiller(l) == [l EXCEPT ![Len(l)].t = FillerText]
 ForceCases(z)    == {Case("force", d, fl, l) : d \in 1..(gG + 2), fl \in {0, 1}, l \in ForceLists(gG, gN, gNT)}
+                    \cup {Case("force", d, fl, LooksLikeFiller(l)) : d \in 1..(gG + 2), fl \in {0, 1},
+                           l \in {x \in ForceLists(gG, gN, gNT) : x # <<>> /\ x[Len(x)].e = x[Len(x)].s + 1}}
 
 \* Merge: pairs of lists + maps with keys subset of {a,b} (A) / {a,b} (B); nil receivers
 IdMaps(tag) == UNION {{[k \in P |-> [id |-> k, parent |-> "", tag |-> tag]]} : P \in SUBSET {"a", "b"}}
